@@ -1,6 +1,6 @@
 CONSTANTS
   Cmds <- AllCmds
-  MaxRecs = 2
+  MaxRecs = 3
   Impl = "repaired"
   Dump = FALSE
 SPECIFICATION Spec
